@@ -12,6 +12,7 @@ import (
 	ocispec "github.com/opencontainers/image-spec/specs-go/v1"
 	"oras.land/oras-go/v2"
 	"oras.land/oras-go/v2/content"
+	"oras.land/oras-go/v2/registry"
 
 	"simshim/rt"
 )
@@ -112,15 +113,20 @@ func (t *PagingTarget) Referrers(ctx context.Context, desc ocispec.Descriptor, a
 	ps = t.order(ps)
 	var refs []ocispec.Descriptor
 	for _, p := range ps {
-		if p.MediaType != ocispec.MediaTypeImageManifest {
+		if p.MediaType != ocispec.MediaTypeImageManifest && p.MediaType != LegacyArtifactManifest {
 			continue
 		}
 		b, err := content.FetchAll(ctx, t.Inner, p)
 		if err != nil {
 			return err
 		}
-		var m ocispec.Manifest
-		if json.Unmarshal(b, &m) != nil || m.Subject == nil || m.Subject.Digest != desc.Digest {
+		var m struct {
+			ArtifactType string              `json:"artifactType"`
+			Config       ocispec.Descriptor  `json:"config"`
+			Subject      *ocispec.Descriptor `json:"subject"`
+			Annotations  map[string]string   `json:"annotations"`
+		}
+		if json.Unmarshal(b, &m) != nil || m.Subject == nil || m.Subject.Digest != desc.Digest || m.Subject.Size != desc.Size || m.Subject.MediaType != desc.MediaType {
 			continue
 		}
 		at := m.ArtifactType
@@ -159,6 +165,22 @@ func (t *PagingTarget) Referrers(ctx context.Context, desc ocispec.Descriptor, a
 	return nil
 }
 
+// LegacyArtifactManifest is the media type of the pre-1.1 OCI artifact manifest.
+const LegacyArtifactManifest = "application/vnd.oci.artifact.manifest.v1+json"
+
+// PushLegacyArtifact stores a legacy artifact manifest.
+func PushLegacyArtifact(ctx context.Context, s content.Storage, artifactType string, blobs []ocispec.Descriptor, subject *ocispec.Descriptor, annotations map[string]string) (ocispec.Descriptor, error) {
+	b, err := json.Marshal(map[string]any{"mediaType": LegacyArtifactManifest, "artifactType": artifactType, "blobs": blobs, "subject": subject, "annotations": annotations})
+	if err != nil {
+		return ocispec.Descriptor{}, err
+	}
+	d := ocispec.Descriptor{MediaType: LegacyArtifactManifest, Digest: digest.FromBytes(b), Size: int64(len(b))}
+	if ok, _ := s.Exists(ctx, d); ok {
+		return d, nil
+	}
+	return d, s.Push(ctx, d, bytes.NewReader(b))
+}
+
 // PushManifest stores an image manifest (config = empty JSON of the given media type) and returns its descriptor.
 func PushManifest(ctx context.Context, s content.Storage, m ocispec.Manifest) (ocispec.Descriptor, error) {
 	m.SchemaVersion = 2
@@ -188,4 +210,126 @@ func PushBlob(ctx context.Context, s content.Storage, mediaType string, b []byte
 // EmptyConfig pushes the 2-byte empty JSON config under a media type.
 func EmptyConfig(ctx context.Context, s content.Storage, mediaType string) (ocispec.Descriptor, error) {
 	return PushBlob(ctx, s, mediaType, []byte("{}"))
+}
+
+// RemoteLike presents a store the way oras' remote.Repository does: it
+// implements oras' registry.Repository, with separate blob and manifest
+// sub-stores that each serve only their own kind (as the two endpoints of a
+// real registry do), a paging referrers API, and top-level content methods
+// that route by media type. It exercises the branches of the repository
+// client that are taken for remote registries only.
+type RemoteLike struct {
+	*PagingTarget
+}
+
+func isManifestType(mt string) bool {
+	switch mt {
+	case ocispec.MediaTypeImageManifest, ocispec.MediaTypeImageIndex, "application/vnd.oci.artifact.manifest.v1+json",
+		"application/vnd.docker.distribution.manifest.v2+json", "application/vnd.docker.distribution.manifest.list.v2+json":
+		return true
+	}
+	return false
+}
+
+type subStore struct {
+	r         *RemoteLike
+	manifests bool
+}
+
+func (s subStore) check(kind string, d ocispec.Descriptor) error {
+	if isManifestType(d.MediaType) != s.manifests {
+		which := "blob"
+		if s.manifests {
+			which = "manifest"
+		}
+		s.r.Log = append(s.r.Log, fmt.Sprintf("%s %s on the %s endpoint REFUSED", kind, d.MediaType, which))
+		return fmt.Errorf("simulated registry: %s of media type %q is not served by the %s endpoint", kind, d.MediaType, which)
+	}
+	return nil
+}
+
+func (s subStore) Fetch(ctx context.Context, d ocispec.Descriptor) (io.ReadCloser, error) {
+	if err := s.check("fetch", d); err != nil {
+		return nil, err
+	}
+	return s.r.Target.Fetch(ctx, d)
+}
+func (s subStore) Push(ctx context.Context, d ocispec.Descriptor, r io.Reader) error {
+	if err := s.check("push", d); err != nil {
+		return err
+	}
+	return s.r.Target.Push(ctx, d, r)
+}
+func (s subStore) Exists(ctx context.Context, d ocispec.Descriptor) (bool, error) {
+	if err := s.check("exists", d); err != nil {
+		return false, err
+	}
+	return s.r.Target.Exists(ctx, d)
+}
+func (s subStore) Delete(ctx context.Context, d ocispec.Descriptor) error {
+	return fmt.Errorf("simulated registry: delete is not allowed")
+}
+func (s subStore) Resolve(ctx context.Context, ref string) (ocispec.Descriptor, error) {
+	if !s.manifests {
+		return ocispec.Descriptor{}, fmt.Errorf("simulated registry: the blob endpoint resolves digests only")
+	}
+	return s.r.Target.Resolve(ctx, ref)
+}
+func (s subStore) FetchReference(ctx context.Context, ref string) (ocispec.Descriptor, io.ReadCloser, error) {
+	d, err := s.Resolve(ctx, ref)
+	if err != nil {
+		return ocispec.Descriptor{}, nil, err
+	}
+	rc, err := s.Fetch(ctx, d)
+	return d, rc, err
+}
+func (s subStore) Tag(ctx context.Context, d ocispec.Descriptor, ref string) error {
+	return s.r.Target.Tag(ctx, d, ref)
+}
+func (s subStore) PushReference(ctx context.Context, d ocispec.Descriptor, r io.Reader, ref string) error {
+	if err := s.Push(ctx, d, r); err != nil {
+		return err
+	}
+	return s.r.Target.Tag(ctx, d, ref)
+}
+
+// Blobs / Manifests are the two endpoints.
+func (r *RemoteLike) Blobs() registry.BlobStore         { return subStore{r, false} }
+func (r *RemoteLike) Manifests() registry.ManifestStore { return subStore{r, true} }
+
+func (r *RemoteLike) route(d ocispec.Descriptor) subStore { return subStore{r, isManifestType(d.MediaType)} }
+
+func (r *RemoteLike) Fetch(ctx context.Context, d ocispec.Descriptor) (io.ReadCloser, error) {
+	return r.route(d).Fetch(ctx, d)
+}
+func (r *RemoteLike) Push(ctx context.Context, d ocispec.Descriptor, rd io.Reader) error {
+	return r.route(d).Push(ctx, d, rd)
+}
+func (r *RemoteLike) Exists(ctx context.Context, d ocispec.Descriptor) (bool, error) {
+	return r.route(d).Exists(ctx, d)
+}
+func (r *RemoteLike) Delete(ctx context.Context, d ocispec.Descriptor) error {
+	return fmt.Errorf("simulated registry: delete is not allowed")
+}
+
+// Resolve on the repository itself must not be used by a client that was handed a registry.Repository:
+// like remote.Repository it would work, but the client is expected to go through Manifests().
+func (r *RemoteLike) Resolve(ctx context.Context, ref string) (ocispec.Descriptor, error) {
+	return r.Target.Resolve(ctx, ref)
+}
+func (r *RemoteLike) FetchReference(ctx context.Context, ref string) (ocispec.Descriptor, io.ReadCloser, error) {
+	return r.Manifests().FetchReference(ctx, ref)
+}
+func (r *RemoteLike) PushReference(ctx context.Context, d ocispec.Descriptor, rd io.Reader, ref string) error {
+	return r.Manifests().PushReference(ctx, d, rd, ref)
+}
+func (r *RemoteLike) Tags(ctx context.Context, last string, fn func([]string) error) error {
+	return fn(nil)
+}
+
+// Predecessors follows remote.Repository: it is answered from the referrers API.
+func (r *RemoteLike) Predecessors(ctx context.Context, d ocispec.Descriptor) ([]ocispec.Descriptor, error) {
+	var out []ocispec.Descriptor
+	err := r.Referrers(ctx, d, "", func(ds []ocispec.Descriptor) error { out = append(out, ds...); return nil })
+	return out, err
 }
